@@ -45,6 +45,37 @@ double nowSec() {
   return ts.tv_sec + ts.tv_nsec * 1e-9;
 }
 
+// CPU seconds (user + system, all threads) consumed so far by a process.  The
+// watchdog budgets are CPU time, not wall-clock time, so that a loaded machine
+// cannot turn a slow but terminating run into a "hang".
+double procCpuSeconds(pid_t pid) {
+  char path[64];
+  snprintf(path, sizeof path, "/proc/%d/stat", (int)pid);
+  FILE *f = fopen(path, "r");
+  if (!f) return -1;
+  char buf[1024];
+  size_t n = fread(buf, 1, sizeof buf - 1, f);
+  fclose(f);
+  buf[n] = 0;
+  char *p = strrchr(buf, ')');
+  if (!p) return -1;
+  // after ") " come state(3) ppid pgrp session tty tpgid flags minflt cminflt majflt cmajflt utime(14) stime(15)
+  unsigned long long ut = 0, st = 0;
+  int field = 2;
+  char *tok = strtok(p + 1, " ");
+  while (tok) {
+    ++field;
+    if (field == 14) ut = strtoull(tok, nullptr, 10);
+    if (field == 15) {
+      st = strtoull(tok, nullptr, 10);
+      break;
+    }
+    tok = strtok(nullptr, " ");
+  }
+  static long tck = sysconf(_SC_CLK_TCK);
+  return (double)(ut + st) / (double)(tck > 0 ? tck : 100);
+}
+
 std::string oneLine(std::string s) {
   for (char &c : s)
     if (c == '\n' || c == '\t' || c == '\r') c = ' ';
@@ -225,7 +256,7 @@ void classifyCrash(CrashInfo &ci, int status, const std::string &err) {
     if (!w.empty()) ci.headline += " " + normalise(w);
   } else if (ci.timeout) {
     ci.cls = "timeout";
-    ci.headline = "no progress within the wall-clock watchdog";
+    ci.headline = "did not finish within the CPU-time budget of the watchdog";
   } else if (ci.sig) {
     ci.cls = "signal";
     ci.headline = "signal " + std::to_string(ci.sig);
@@ -366,6 +397,7 @@ IsoResult runIsolated(const Plan &plan, double timeoutSec, const std::vector<Pla
   close(pfd[1]);
   std::string buf;
   double t0 = nowSec();
+  double lastCpu = 0, lastAdvance = t0;
   bool timedOut = false;
   for (;;) {
     struct pollfd p = {pfd[0], POLLIN, 0};
@@ -376,7 +408,15 @@ IsoResult runIsolated(const Plan &plan, double timeoutSec, const std::vector<Pla
       if (n <= 0) break;
       buf.append(tmp, n);
     }
-    if (nowSec() - t0 > timeoutSec) {
+    double cpu = procCpuSeconds(pid);
+    double wall = nowSec() - t0;
+    if (cpu > lastCpu + 0.2) {
+      lastCpu = cpu;
+      lastAdvance = nowSec();
+    }
+    // budget in CPU seconds; a process that burns no CPU at all for the whole
+    // budget (dead-lock) is killed on wall-clock
+    if ((cpu >= 0 && cpu > timeoutSec) || nowSec() - lastAdvance > std::max(30.0, timeoutSec) || wall > 20 * timeoutSec) {
       timedOut = true;
       kill(pid, SIGKILL);
       break;
@@ -695,7 +735,7 @@ struct BatchCfg {
   std::string replayDir = "/verif/replays";
   std::set<std::string> known;  // "PROP:clause" keys that are listed findings
   int detEvery = 16;            // every n-th run is executed twice and compared
-  double runTimeout = 90;       // wall-clock watchdog per run (never decides a verdict)
+  double runTimeout = 90;       // watchdog per run, in CPU seconds of the worker (see procCpuSeconds)
   double budgetSec = 0;         // optional wall-clock cap for the whole batch (0: none)
   int minimiseBudget = 250;
   int maxReports = 4;
@@ -742,6 +782,7 @@ struct Worker {
   std::string buf;
   long long current = -1;
   double startedAt = 0;
+  double cpuAtStart = 0, lastCpu = 0, lastAdvance = 0;
   std::string errPath;
   ExecResult partial;
   bool inResult = false;
@@ -877,6 +918,24 @@ int replayMain(int argc, char **argv) {
   return violated ? 1 : 0;
 }
 
+int genRunMain(int argc, char **argv) {
+  BatchCfg cfg;
+  long long index = 0;
+  for (int i = 0; i < argc; ++i) {
+    std::string a = argv[i];
+    auto next = [&]() -> std::string { return i + 1 < argc ? argv[++i] : ""; };
+    if (a == "--prop") cfg.prop = next();
+    else if (a == "--tier") cfg.tier = next() == "thorough" ? 1 : 0;
+    else if (a == "--seed") cfg.seed = strtoull(next().c_str(), nullptr, 10);
+    else if (a == "--index") index = atoll(next().c_str());
+    else if (a == "--only") cfg.only = next();
+  }
+  RunSpec rs = runSpec(cfg, index);
+  Plan plan = generatePlan(rs.profile, rs.seed, cfg.tier);
+  fputs(planToText(plan).c_str(), stdout);
+  return 0;
+}
+
 // =============================================================== batch ======
 int batchMain(int argc, char **argv) {
   BatchCfg cfg;
@@ -992,6 +1051,9 @@ int batchMain(int argc, char **argv) {
     if (line.size() >= 2 && line[0] == 'B' && line[1] == '\t') {
       w.current = atoll(line.c_str() + 2);
       w.startedAt = nowSec();
+      w.cpuAtStart = std::max(0.0, procCpuSeconds(w.pid));
+      w.lastCpu = w.cpuAtStart;
+      w.lastAdvance = w.startedAt;
       if (cfg.histEvery > 0) {
         auto &h = slotHistory[&w];
         if (w.current % cfg.histEvery == 0) {
@@ -1059,10 +1121,20 @@ int batchMain(int argc, char **argv) {
         }
       }
       bool timedOut = false;
-      if (!eof && w.current >= 0 && nowSec() - w.startedAt > cfg.runTimeout) {
-        kill(w.pid, SIGKILL);
-        timedOut = true;
-        eof = true;
+      if (!eof && w.current >= 0 && nowSec() - w.startedAt > 2.0) {
+        double cpu = procCpuSeconds(w.pid);
+        if (cpu > w.lastCpu + 0.2) {
+          w.lastCpu = cpu;
+          w.lastAdvance = nowSec();
+        }
+        bool overBudget = cpu >= 0 && cpu - w.cpuAtStart > cfg.runTimeout;           // CPU seconds
+        bool stalled = nowSec() - w.lastAdvance > std::max(30.0, cfg.runTimeout);    // burns no CPU: dead-lock
+        bool absurd = nowSec() - w.startedAt > 20 * cfg.runTimeout;
+        if (overBudget || stalled || absurd) {
+          kill(w.pid, SIGKILL);
+          timedOut = true;
+          eof = true;
+        }
       }
       if (eof) {
         int status = 0;
@@ -1241,7 +1313,8 @@ int batchMain(int argc, char **argv) {
       continue;
     }
     // determinism gate: same plan, fresh processes, twice
-    double isoT = clause == "hang" ? std::max(60.0, 3 * cfg.runTimeout) : std::max(60.0, cfg.runTimeout);
+    // a hang is reported only if the run, alone, burns twice the batch's CPU budget without finishing, two times
+    double isoT = clause == "hang" ? 2 * cfg.runTimeout : std::max(60.0, cfg.runTimeout);
     IsoResult a = runIsolated(plan, isoT), b = runIsolated(plan, isoT);
     VClass ca = classOf(cfg.prop, plan, a, clause), cb = classOf(cfg.prop, plan, b, clause);
     bool sameTrace = a.completed == b.completed && (!a.completed || a.res.traceHash == b.res.traceHash);
@@ -1255,11 +1328,13 @@ int batchMain(int argc, char **argv) {
     mz.wantKey = ca.key();
     mz.budget = cfg.minimiseBudget;
     mz.deadline = nowSec() + (cfg.tier ? 240 : 90);
-    mz.isoTimeout = clause == "hang" ? std::max(20.0, cfg.runTimeout) : std::max(60.0, cfg.runTimeout);
-    if (clause == "hang") mz.budget = std::min(mz.budget, 12);
+    // shrinking a hang costs one watchdog wait per surviving candidate: few attempts, short leash
+    mz.isoTimeout = clause == "hang" ? 15.0 : std::max(60.0, cfg.runTimeout);
+    if (clause == "hang") mz.budget = std::min(mz.budget, 6);
     Plan small = mz.run(plan);
     // the minimised plan must still fail, identically, twice
-    IsoResult m1 = runIsolated(small, isoT), m2 = runIsolated(small, isoT);
+    double verT = clause == "hang" ? 45.0 : isoT;  // the original plan already passed the full gate
+    IsoResult m1 = runIsolated(small, verT), m2 = runIsolated(small, verT);
     VClass c1 = classOf(cfg.prop, small, m1, clause), c2 = classOf(cfg.prop, small, m2, clause);
     if (!c1.any || !c2.any || c1.key() != c2.key()) small = plan, c1 = ca;
     std::string path = cfg.replayDir + "/" + cfg.prop + "-" + clause + "-" + std::to_string(rs.seed) + ".plan";
